@@ -57,7 +57,9 @@ CONSTANTS
   Fine,          \* TRUE: forwardRpc's local steps (check, icpt, record, pop) are separate actions;
                  \* FALSE: they are one action (they only touch the envelope in the server's hand)
   MaxFaults, MaxReattach, AllowCancel,
-  Bug_D12, Bug_D13, Bug_D14
+  LateAttach,    \* names that may be attached (AddClient) for the first time while traffic is flowing
+  Bug_D12, Bug_D13, Bug_D14,
+  Bug_SplitLookup \* the lookup and the on-demand registration of forwardRpc are two critical sections (seeded C16-r4m1)
 
 \* connection records: the attached ones, one per re-attachment, and at most one dial
 \* on demand per envelope (so that the lookup never runs out of records)
@@ -145,7 +147,8 @@ PeerFault(c) ==
 \* Proxy.AddClient(n, conn) by a peer that is already known under n: takes the mutex,
 \* replaces the registration, starts the loops.  The old connection lives on.
 Reattach(n) ==
-  /\ nreatt < MaxReattach /\ n \in ReattachNames /\ latest[n] # 0 /\ Free # {}
+  /\ nreatt < MaxReattach /\ Free # {}
+  /\ (n \in ReattachNames /\ latest[n] # 0) \/ (n \in LateAttach /\ latest[n] = 0)
   /\ LET c == NewC IN
        /\ name' = [name EXCEPT ![c] = n] /\ st' = [st EXCEPT ![c] = "live"]
        /\ rpc' = [rpc EXCEPT ![c] = "read"] /\ wpc' = [wpc EXCEPT ![c] = "sel"]
@@ -292,17 +295,26 @@ FwdPop ==
   /\ IF Len(srv.env.nxt) > 0
        THEN SrvOnly([srv EXCEPT !.pc = "lookup", !.dst = srv.env.nxt[Len(srv.env.nxt)], !.env.nxt = Front(@)])
        ELSE SrvOnly([srv EXCEPT !.pc = "lookup"])
+FwdRegisterNow ==
+  /\ Free # {}
+  /\ LET c == NewC IN
+       /\ name' = [name EXCEPT ![c] = srv.dst] /\ st' = [st EXCEPT ![c] = "dialing"]
+       /\ cpc' = [cpc EXCEPT ![c] = "dial"] /\ clients' = [clients EXCEPT ![srv.dst] = c]
+       /\ srv' = [srv EXCEPT !.pc = "enq", !.tgt = c]
 \* step 5 (under the mutex): the registered connection, or a new one that is dialled on demand
 FwdLookup ==
   /\ srv.pc = "lookup"
   /\ IF clients[srv.dst] # 0
        THEN /\ srv' = [srv EXCEPT !.pc = "enq", !.tgt = clients[srv.dst]]
             /\ UNCHANGED <<name, st, cpc, clients>>
-       ELSE /\ Free # {}
-            /\ LET c == NewC IN
-                 /\ name' = [name EXCEPT ![c] = srv.dst] /\ st' = [st EXCEPT ![c] = "dialing"]
-                 /\ cpc' = [cpc EXCEPT ![c] = "dial"] /\ clients' = [clients EXCEPT ![srv.dst] = c]
-                 /\ srv' = [srv EXCEPT !.pc = "enq", !.tgt = c]
+       ELSE IF Bug_SplitLookup
+              THEN srv' = [srv EXCEPT !.pc = "register"] /\ UNCHANGED <<name, st, cpc, clients>>   \* the mutex is released here
+              ELSE FwdRegisterNow
+  /\ UNCHANGED <<rpc, wpc, rh, wh, inq, buf, wire, gcan, flt, cancelled, crashed, hvars>>
+\* (only with Bug_SplitLookup) the registration of the connection to dial, in a critical section of its own:
+\* it overwrites whatever AddClient registered in between
+FwdRegister ==
+  /\ srv.pc = "register" /\ FwdRegisterNow
   /\ UNCHANGED <<rpc, wpc, rh, wh, inq, buf, wire, gcan, flt, cancelled, crashed, hvars>>
 \* step 6: select { case client.fromServer <- rpc: default: drop }
 FwdEnqueue ==
@@ -330,7 +342,7 @@ SrvCallback ==
 
 -----------------------------------------------------------------------------
 Server == \/ \E c \in Conns : RecvRpc(c) \/ RecvErr(c)
-          \/ SrvCtx \/ FwdCheck \/ FwdIcpt \/ FwdRecord \/ FwdPop \/ FwdLookup \/ FwdEnqueue \/ DropFull
+          \/ SrvCtx \/ FwdCheck \/ FwdIcpt \/ FwdRecord \/ FwdPop \/ FwdLookup \/ FwdRegister \/ FwdEnqueue \/ DropFull
           \/ SrvDel \/ SrvCallback
 Reader(c) == ReadOk(c) \/ ReadErr(c) \/ ReadSendCtx(c) \/ (rpc[c] = "report" /\ ReportCtx(c))
 Writer(c) == WriteTake(c) \/ WriteSelCtx(c) \/ WriteOk(c) \/ WriteErr(c) \/ (wpc[c] = "report" /\ ReportCtx(c))
@@ -405,7 +417,7 @@ NewerConnectionSurvives ==
       (c # 0 /\ c \notin detected /\ ~gcan[c] /\ rpc[c] # "report" /\ wpc[c] # "report") => clients[n] = c
 
 TypeOK == /\ \A c \in Conns : Len(buf[c]) <= Cap
-          /\ srv.pc \in {"recv", "check", "icpt", "record", "pop", "lookup", "enq", "del", "cb", "done"}
+          /\ srv.pc \in {"recv", "check", "icpt", "record", "pop", "lookup", "register", "enq", "del", "cb", "done"}
 
 Safety == TypeOK /\ ExactlyOnceOrDropped /\ RightPeerUnchanged /\ RecordAppendedOnce /\ PairOrder /\ DialOnce
           /\ NoSpoofForwarded /\ NoCrash /\ NewerConnectionSurvives
